@@ -3,11 +3,16 @@
 
 // C20 - a port scan is reported once, listing exactly the ports probed.
 //
-// Bursts of probes (TCP SYN, UDP to undecoded ports, ICMP echo) from 1..4 sources are
-// written to the socketpair of hooked canaries whose real Start() loop and real knock
-// detector run in a child process; many independent canaries share one detector tick.
-// The oracle reads the portscan events. A second test enumerates operation sequences on
-// the detector's grouping container (UniqueSet) against an ordered-set model.
+// Scan cases are sequences of bursts ("phases") of probes (TCP SYN with and without
+// options, UDP to undecoded ports with empty, 1-byte and longer payloads, minimal and
+// longer ICMP echo) from 1..4 sources. They are written to the socketpair of hooked
+// canaries whose real Start() loop and knock detector run in a child process; many
+// independent canaries share the detector ticks of a batch. The next burst of a case is
+// sent only after the reports of the previous one are complete and one further tick has
+// passed, so every burst is a detector period of its own and is judged on the events
+// that arrive in its window. In some cases the event channel is slow for one source's
+// reports and a burst larger than the knock queue arrives from another source while such a
+// report is being delivered. uniqueset_test.go enumerates the grouping container.
 package c20
 
 import (
@@ -18,7 +23,6 @@ import (
 	"testing"
 	"time"
 
-	"github.com/honeytrap/honeytrap/listener/canary"
 	"pgregory.net/rapid"
 
 	cl "verif/canarylab"
@@ -30,14 +34,32 @@ const prop = "C20"
 func TestMain(m *testing.M) { cl.ChildIfRequested(); vlib.Main(m, prop) }
 
 type probe struct {
-	Src   int    `json:"src"`
-	Proto string `json:"proto"` // tcp | udp | icmp
-	Port  uint16 `json:"port,omitempty"`
+	Src     int    `json:"src"`
+	Proto   string `json:"proto"` // tcp | udp | icmp
+	Port    uint16 `json:"port,omitempty"`
+	Payload int    `json:"payload,omitempty"` // udp / icmp payload bytes (0: header only)
+	NoOpts  bool   `json:"no_opts,omitempty"` // tcp: SYN without options
 }
 
-type burst struct {
-	Sources int     `json:"sources"`
-	Probes  []probe `json:"probes"`
+type phase struct {
+	Probes []probe `json:"probes"`
+	// OnHold is sent when the slow event channel announces that it is delivering a report
+	// of the Hold source (the detector is then busy inside Send)
+	OnHold []probe `json:"on_hold,omitempty"`
+}
+
+type scanCase struct {
+	Phases []phase `json:"phases"`
+	Hold   int     `json:"hold,omitempty"` // 1-based source whose port-scan events the channel delivers slowly
+	HoldMs int     `json:"hold_ms,omitempty"`
+}
+
+func (c scanCase) probes() int {
+	n := 0
+	for _, p := range c.Phases {
+		n += len(p.Probes) + len(p.OnHold)
+	}
+	return n
 }
 
 // sources 0, 2 and 3 arrive through the same router (one hardware address), source 1 is
@@ -63,42 +85,55 @@ func env(t testing.TB) cl.Local {
 	return local
 }
 
-func config(l cl.Local) cl.Config {
+func config(l cl.Local, c scanCase) cl.Config {
 	cfg := cl.Config{Interfaces: []string{l.Name}, Start: true}
 	for _, p := range sources {
 		cfg.ARP = append(cfg.ARP, cl.ARPEntry{IP: p.IP.String(), MAC: p.MAC.String(), Interface: l.Name})
 	}
+	if c.Hold > 0 && c.Hold <= len(sources) {
+		cfg.HoldSource = sources[c.Hold-1].IP.String()
+		cfg.HoldMs = c.HoldMs
+	}
 	return cfg
 }
 
-func (b burst) frames(l cl.Local) [][]byte {
-	out := make([][]byte, 0, len(b.Probes))
-	for i, p := range b.Probes {
+var frameSeq uint32
+
+func frames(l cl.Local, probes []probe) [][]byte {
+	out := make([][]byte, 0, len(probes))
+	for _, p := range probes {
+		frameSeq++
+		i := frameSeq
 		src := sources[p.Src]
 		switch p.Proto {
 		case "tcp":
-			out = append(out, l.TCPFrame(src, cl.TCPFields{Sport: uint16(30000 + i), Dport: p.Port, Seq: uint32(1000 * i), DataOff: -1, Flags: cl.SYN, Options: []byte{2, 4, 5, 0xb4}}))
+			f := cl.TCPFields{Sport: uint16(30000 + i%30000), Dport: p.Port, Seq: 1000 * i, DataOff: -1, Flags: cl.SYN}
+			if !p.NoOpts {
+				f.Options = []byte{2, 4, 5, 0xb4}
+			}
+			out = append(out, l.TCPFrame(src, f))
 		case "udp":
-			out = append(out, l.UDPFrame(src, uint16(30000+i), p.Port, []byte("scan")))
+			out = append(out, l.UDPFrame(src, uint16(30000+i%30000), p.Port, []byte("scan-payload-bytes")[:p.Payload%19]))
 		default:
-			out = append(out, l.ICMPFrame(src, 77, uint16(i), []byte("abcdefghijklmnop")))
+			out = append(out, l.ICMPFrame(src, 77, uint16(i), []byte("abcdefghijklmnopqrstuvwxyz012345")[:p.Payload%33]))
 		}
 	}
 	return out
 }
 
-// expected returns, per source address, the set of distinct protocol/port pairs probed.
-func (b burst) expected() map[string]map[string]bool {
+// expected returns, per source address, the set of distinct protocol/port pairs probed in
+// the phase.
+func (p phase) expected() map[string]map[string]bool {
 	out := map[string]map[string]bool{}
-	for _, p := range b.Probes {
-		ip := sources[p.Src].IP.String()
+	for _, pr := range append(append([]probe(nil), p.Probes...), p.OnHold...) {
+		ip := sources[pr.Src].IP.String()
 		if out[ip] == nil {
 			out[ip] = map[string]bool{}
 		}
-		if p.Proto == "icmp" {
+		if pr.Proto == "icmp" {
 			out[ip]["icmp"] = true
 		} else {
-			out[ip][fmt.Sprintf("%s/%d", p.Proto, p.Port)] = true
+			out[ip][fmt.Sprintf("%s/%d", pr.Proto, pr.Port)] = true
 		}
 	}
 	return out
@@ -147,14 +182,20 @@ func complete(want map[string]map[string]bool, got []scanReport) bool {
 	return true
 }
 
-// judge applies the oracle to the reports of one burst.
-func judge(b burst, got []scanReport) error {
-	want := b.expected()
+func short(l []string) string {
+	if len(l) > 12 {
+		return fmt.Sprintf("%v ... (%d)", l[:12], len(l))
+	}
+	return fmt.Sprint(l)
+}
+
+// judge applies the oracle to the reports that arrived in the window of one burst.
+func judge(want map[string]map[string]bool, got []scanReport) error {
 	bySrc := map[string][]string{}
 	nev := map[string]int{}
 	for _, g := range got {
 		if _, ok := want[g.src]; !ok {
-			return fmt.Errorf("port-scan event for source %s, which sent nothing (ports %v)", g.src, g.ports)
+			return fmt.Errorf("port-scan event for source %s, which sent nothing in this burst (ports %s)", g.src, short(g.ports))
 		}
 		bySrc[g.src] = append(bySrc[g.src], g.ports...)
 		nev[g.src]++
@@ -192,8 +233,8 @@ func judge(b burst, got []scanReport) error {
 				w = append(w, p)
 			}
 			sort.Strings(w)
-			return fmt.Errorf("source %s probed exactly %v; its %d port-scan event(s) list %v: never reported %v, listed more than once %v, not probed %v",
-				src, w, nev[src], ports, missing, dup, extra)
+			return fmt.Errorf("source %s probed exactly %s; its %d port-scan event(s) list %s: never reported %s, listed more than once %s, not probed %s",
+				src, short(w), nev[src], short(ports), short(missing), short(dup), short(extra))
 		}
 	}
 	return nil
@@ -202,163 +243,184 @@ func judge(b burst, got []scanReport) error {
 const (
 	tick        = 5 * time.Second
 	firstWait   = 32 * time.Second // six detector ticks for the reports to be complete
-	settleAfter = tick + 1500*time.Millisecond
+	settleAfter = tick + 1200*time.Millisecond
 )
 
-// runBatch plays the bursts on fresh canaries of one child (one canary per burst) and
-// returns the oracle's verdict per burst.
-func runBatch(l cl.Local, bursts []burst) ([]error, error) {
+// runBatch plays the cases on fresh canaries of one child (one canary per case), phase
+// by phase, and returns the oracle's first complaint per case.
+func runBatch(l cl.Local, cases []scanCase) ([]error, error) {
 	ch, err := cl.StartChild()
 	if err != nil {
 		return nil, err
 	}
 	defer ch.Kill()
-	ks := make([]*cl.Canary, len(bursts))
-	for i := range bursts {
-		if ks[i], err = ch.New(config(l)); err != nil {
+	ks := make([]*cl.Canary, len(cases))
+	nph := 0
+	for i, c := range cases {
+		if ks[i], err = ch.New(config(l, c)); err != nil {
 			return nil, err
 		}
-	}
-	for i, b := range bursts {
-		if err := ks[i].SendMany(b.frames(l)); err != nil {
-			return nil, fmt.Errorf("sending probes: %v (child: %s)", err, ch.Death())
+		if len(c.Phases) > nph {
+			nph = len(c.Phases)
 		}
 	}
-	if err := ch.Ping(); err != nil {
-		return nil, fmt.Errorf("child: %v %s", err, ch.Death())
-	}
-	verdicts := make([]error, len(bursts))
-	start := time.Now()
-	pending := map[int]bool{}
-	for i := range bursts {
-		pending[i] = true
-	}
-	// phase 1: until every burst's reports are complete (re-measured once before a
-	// missing report is believed)
-	for round := 0; round < 2 && len(pending) > 0; round++ {
-		deadline := start.Add(time.Duration(round+1) * firstWait)
-		for i := range bursts {
-			if !pending[i] {
+	verdicts := make([]error, len(cases))
+	for ph := 0; ph < nph; ph++ {
+		marks := make([]int, len(cases))
+		var wg sync.WaitGroup
+		var sendErr error
+		var sendMu sync.Mutex
+		for i, c := range cases {
+			marks[i] = len(ks[i].Events())
+			if ph >= len(c.Phases) {
 				continue
 			}
-			want := bursts[i].expected()
-			left := time.Until(deadline)
-			if left < 0 {
-				left = 0
+			p := c.Phases[ph]
+			if len(p.OnHold) > 0 {
+				// armed before the probes go out: the burst leaves when the report is being delivered
+				wg.Add(1)
+				go func(k *cl.Canary, fr [][]byte, n int) {
+					defer wg.Done()
+					if k.WaitHold(n, firstWait) {
+						if err := k.SendMany(fr); err != nil {
+							sendMu.Lock()
+							sendErr = err
+							sendMu.Unlock()
+						}
+					}
+				}(ks[i], frames(l, p.OnHold), ks[i].Holds()+1)
 			}
-			if ks[i].WaitFor(left, func(evs []cl.Ev) bool {
-				got, bad := scans(l, evs)
-				return bad != "" || complete(want, got)
-			}) {
-				delete(pending, i)
+			if err := ks[i].SendMany(frames(l, p.Probes)); err != nil {
+				return nil, fmt.Errorf("sending probes: %v (child: %s)", err, ch.Death())
 			}
 		}
+		if err := ch.Ping(); err != nil {
+			return nil, fmt.Errorf("child: %v %s", err, ch.Death())
+		}
+		start := time.Now()
+		pending := map[int]bool{}
+		for i, c := range cases {
+			if ph < len(c.Phases) {
+				pending[i] = true
+			}
+		}
+		// until every case's reports for this burst are complete (re-measured once before
+		// a missing report is believed)
+		for round := 0; round < 2 && len(pending) > 0; round++ {
+			deadline := start.Add(time.Duration(round+1) * firstWait)
+			for i, c := range cases {
+				if !pending[i] {
+					continue
+				}
+				want := c.Phases[ph].expected()
+				left := time.Until(deadline)
+				if left < 0 {
+					left = 0
+				}
+				mark := marks[i]
+				if ks[i].WaitFor(left, func(evs []cl.Ev) bool {
+					got, bad := scans(l, evs[mark:])
+					return bad != "" || complete(want, got)
+				}) {
+					delete(pending, i)
+				}
+			}
+			if ch.Dead() {
+				break
+			}
+		}
+		wg.Wait()
 		if ch.Dead() {
-			break
+			return nil, fmt.Errorf("the canary child died during the bursts: %s", ch.Death())
 		}
-	}
-	if ch.Dead() {
-		return nil, fmt.Errorf("the canary child died during the bursts: %s", ch.Death())
-	}
-	// phase 2: one more detector tick, so that a repeated report is seen
-	time.Sleep(settleAfter)
-	for i, b := range bursts {
-		got, bad := scans(l, ks[i].Events())
-		if bad != "" {
-			verdicts[i] = fmt.Errorf("%s", bad)
-			continue
+		if sendErr != nil {
+			return nil, fmt.Errorf("sending the on-hold burst: %v", sendErr)
 		}
-		verdicts[i] = judge(b, got)
-		if verdicts[i] != nil && pending[i] {
-			verdicts[i] = fmt.Errorf("%v (waited %v = %d detector ticks)", verdicts[i], time.Since(start).Round(time.Second), int(time.Since(start)/tick))
+		// one more detector tick, so that a repeated report is seen (and the next burst is
+		// more than one tick away)
+		time.Sleep(settleAfter)
+		for i, c := range cases {
+			if verdicts[i] != nil {
+				continue
+			}
+			var want map[string]map[string]bool
+			if ph < len(c.Phases) {
+				want = c.Phases[ph].expected()
+			} else {
+				want = map[string]map[string]bool{}
+			}
+			got, bad := scans(l, ks[i].Events()[marks[i]:])
+			var v error
+			if bad != "" {
+				v = fmt.Errorf("%s", bad)
+			} else {
+				v = judge(want, got)
+			}
+			if v != nil {
+				waited := ""
+				if pending[i] {
+					waited = fmt.Sprintf(" (waited %v = %d detector ticks)", time.Since(start).Round(time.Second), int(time.Since(start)/tick))
+				}
+				hold := ""
+				if ph < len(c.Phases) && len(c.Phases[ph].OnHold) > 0 {
+					hold = fmt.Sprintf(" [%d of the probes arrived while a report for %s was being delivered to a channel that takes %d ms]", len(c.Phases[ph].OnHold), sources[c.Hold-1].IP, c.HoldMs)
+				}
+				verdicts[i] = fmt.Errorf("burst %d of %d: %v%s%s", ph+1, len(c.Phases), v, waited, hold)
+			}
 		}
 	}
 	return verdicts, nil
 }
 
-func renumber(b burst) burst {
-	out := burst{Probes: append([]probe(nil), b.Probes...)}
-	for _, p := range b.Probes {
-		if p.Src+1 > out.Sources {
-			out.Sources = p.Src + 1
-		}
-	}
-	return out
-}
-
-// minimise tries smaller variants of a failing burst, one batch (one tick) per round.
-func minimise(l cl.Local, b burst, rounds int) burst {
-	for r := 0; r < rounds && len(b.Probes) > 1; r++ {
-		var cands []burst
-		for s := 0; s < b.Sources; s++ {
-			var only, without burst
-			for _, p := range b.Probes {
-				if p.Src == s {
-					only.Probes = append(only.Probes, p)
-				} else {
-					without.Probes = append(without.Probes, p)
-				}
-			}
-			if len(only.Probes) > 0 && len(only.Probes) < len(b.Probes) {
-				cands = append(cands, renumber(only))
-			}
-			if len(without.Probes) > 0 && len(without.Probes) < len(b.Probes) {
-				cands = append(cands, renumber(without))
-			}
-		}
-		h := len(b.Probes) / 2
-		cands = append(cands, renumber(burst{Probes: b.Probes[:h]}), renumber(burst{Probes: b.Probes[h:]}))
-		if len(b.Probes) <= 12 {
-			for i := range b.Probes {
-				var c burst
-				c.Probes = append(append(c.Probes, b.Probes[:i]...), b.Probes[i+1:]...)
-				cands = append(cands, renumber(c))
-			}
-		}
-		verdicts, err := runBatch(l, cands)
-		if err != nil {
-			return b
-		}
-		best := -1
-		for i, v := range verdicts {
-			if v != nil && (best < 0 || len(cands[i].Probes) < len(cands[best].Probes)) {
-				best = i
-			}
-		}
-		if best < 0 {
-			return b
-		}
-		b = cands[best]
-	}
-	return b
-}
-
-func classify(b burst) (label, fp string) {
-	want := b.expected()
-	groups := map[string]bool{}
-	repeated := false
-	seen := map[string]bool{}
+func classify(c scanCase) (label, fp string) {
+	srcs := map[int]bool{}
 	protos := map[string]bool{}
-	for _, p := range b.Probes {
-		key := fmt.Sprintf("%d/%s/%d", p.Src, p.Proto, p.Port)
-		if p.Proto == "icmp" {
-			key = fmt.Sprintf("%d/icmp", p.Src)
+	nontrivial := false
+	prevGroups := map[string]bool{}
+	history := false
+	for _, p := range c.Phases {
+		seen := map[string]bool{}
+		groups := map[string]bool{}
+		for _, pr := range append(append([]probe(nil), p.Probes...), p.OnHold...) {
+			key := fmt.Sprintf("%d/%s/%d", pr.Src, pr.Proto, pr.Port)
+			if pr.Proto == "icmp" {
+				key = fmt.Sprintf("%d/icmp", pr.Src)
+			}
+			if seen[key] {
+				nontrivial = true
+			}
+			seen[key] = true
+			g := fmt.Sprintf("%d/%s", pr.Src, pr.Proto)
+			groups[g] = true
+			if prevGroups[g] {
+				history = true
+			}
+			srcs[pr.Src] = true
+			protos[pr.Proto] = true
 		}
-		if seen[key] {
-			repeated = true
+		if len(groups) >= 3 {
+			nontrivial = true
 		}
-		seen[key] = true
-		groups[fmt.Sprintf("%d/%s", p.Src, p.Proto)] = true
-		protos[p.Proto] = true
+		for g := range groups {
+			prevGroups[g] = true
+		}
 	}
 	ps := make([]string, 0, 3)
 	for p := range protos {
 		ps = append(ps, p)
 	}
 	sort.Strings(ps)
-	label = fmt.Sprintf("burst/sources=%d/%s", len(want), strings.Join(ps, "+"))
-	if repeated || len(groups) >= 3 {
-		return label, vlib.JSON(b)
+	label = fmt.Sprintf("scan/bursts=%d/sources=%d/%s", len(c.Phases), len(srcs), strings.Join(ps, "+"))
+	if history {
+		label += "/same-group-again"
+		nontrivial = true
+	}
+	if c.Hold > 0 {
+		label += "/slow-channel"
+		nontrivial = true
+	}
+	if nontrivial {
+		return label, vlib.JSON(c)
 	}
 	return label, ""
 }
@@ -366,123 +428,212 @@ func classify(b burst) (label, fp string) {
 var udpPorts = []uint16{7, 69, 500, 1194, 4500, 5353, 7000, 27015, 33434, 65535, 1}
 var tcpPorts = []uint16{21, 23, 25, 80, 110, 139, 443, 445, 1433, 3306, 3389, 5900, 6379, 8080, 9200, 65535, 1}
 
-func genBurst(rt *rapid.T, label string) burst {
-	var b burst
-	b.Sources = rapid.IntRange(1, 4).Draw(rt, label+"sources")
+func genProbe(rt *rapid.T, label string, src int, proto string, few int, wide bool, n int) probe {
+	p := probe{Src: src, Proto: proto}
+	switch proto {
+	case "tcp":
+		if wide {
+			p.Port = uint16(20000 + n)
+		} else {
+			p.Port = tcpPorts[rapid.IntRange(0, len(tcpPorts)-1).Draw(rt, label+"tp")%(few*3)%len(tcpPorts)]
+		}
+		p.NoOpts = rapid.Bool().Draw(rt, label+"noopts")
+	case "udp":
+		if wide {
+			p.Port = uint16(20000 + n)
+		} else {
+			p.Port = udpPorts[rapid.IntRange(0, len(udpPorts)-1).Draw(rt, label+"up")%(few*2)%len(udpPorts)]
+		}
+		p.Payload = rapid.SampledFrom([]int{0, 0, 1, 4, 18}).Draw(rt, label+"upl")
+	default:
+		p.Payload = rapid.SampledFrom([]int{0, 0, 1, 16, 32}).Draw(rt, label+"ipl")
+	}
+	return p
+}
+
+var protoSets = [][]string{{"tcp"}, {"udp"}, {"icmp"}, {"tcp", "udp"}, {"tcp", "icmp"}, {"udp", "icmp"}, {"tcp", "udp", "icmp"}, {"tcp", "udp", "icmp"}}
+
+func genCase(rt *rapid.T, label string, nph int) scanCase {
+	var c scanCase
+	nsrc := rapid.IntRange(1, 4).Draw(rt, label+"sources")
+	few := rapid.IntRange(1, 6).Draw(rt, label+"distinct-ports") // small port alphabets force repeats
+	// first burst
 	n := rapid.SampledFrom([]int{1, 2, 3, 5, 8, 13, 30, 60, 100, 101, 102, 150}).Draw(rt, label+"probes")
 	if rapid.Bool().Draw(rt, label+"any") {
 		n = rapid.IntRange(1, 150).Draw(rt, label+"n")
 	}
-	protos := rapid.SampledFrom([][]string{{"tcp"}, {"udp"}, {"icmp"}, {"tcp", "udp"}, {"tcp", "icmp"}, {"udp", "icmp"}, {"tcp", "udp", "icmp"}, {"tcp", "udp", "icmp"}}).Draw(rt, label+"protos")
-	few := rapid.IntRange(1, 6).Draw(rt, label+"distinct-ports") // small port alphabets force repeats
+	protos := rapid.SampledFrom(protoSets).Draw(rt, label+"protos")
+	wide := rapid.IntRange(0, 3).Draw(rt, label+"wide") == 0
+	var first phase
 	for i := 0; i < n; i++ {
-		p := probe{Src: rapid.IntRange(0, b.Sources-1).Draw(rt, label+"src"), Proto: rapid.SampledFrom(protos).Draw(rt, label+"proto")}
-		switch p.Proto {
-		case "tcp":
-			p.Port = tcpPorts[rapid.IntRange(0, len(tcpPorts)-1).Draw(rt, label+"tp")%(few*3)%len(tcpPorts)]
-		case "udp":
-			p.Port = udpPorts[rapid.IntRange(0, len(udpPorts)-1).Draw(rt, label+"up")%(few*2)%len(udpPorts)]
-		}
-		b.Probes = append(b.Probes, p)
+		first.Probes = append(first.Probes, genProbe(rt, label, rapid.IntRange(0, nsrc-1).Draw(rt, label+"src"), rapid.SampledFrom(protos).Draw(rt, label+"proto"), few, wide, i))
 	}
-	return renumber(b)
+	// a slow event channel for one source and a burst larger than the knock queue from
+	// another one while that source's report is being delivered
+	if nsrc >= 2 && rapid.IntRange(0, 4).Draw(rt, label+"slow") == 0 {
+		a := rapid.IntRange(0, nsrc-1).Draw(rt, label+"slow-src")
+		b := (a + 1 + rapid.IntRange(0, nsrc-2).Draw(rt, label+"burst-src")) % nsrc
+		c.Hold, c.HoldMs = a+1, 1200
+		// the slow source scans alone in this burst, so that its report is the one the
+		// detector is busy with
+		first.Probes = first.Probes[:0]
+		for i := 0; i < rapid.IntRange(1, 5).Draw(rt, label+"slow-n"); i++ {
+			first.Probes = append(first.Probes, genProbe(rt, label, a, rapid.SampledFrom(protos).Draw(rt, label+"proto"), few, false, i))
+		}
+		m := rapid.IntRange(101, 150).Draw(rt, label+"big")
+		bp := rapid.SampledFrom(protoSets).Draw(rt, label+"big-protos")
+		for i := 0; i < m; i++ {
+			first.OnHold = append(first.OnHold, genProbe(rt, label, b, rapid.SampledFrom(bp).Draw(rt, label+"proto"), few, true, i))
+		}
+	}
+	c.Phases = append(c.Phases, first)
+	// later bursts: the same group again, other sources, or anything
+	for ph := 1; ph < nph; ph++ {
+		prev := c.Phases[ph-1].Probes
+		var p phase
+		m := rapid.SampledFrom([]int{0, 1, 1, 2, 3, 5, 8, 30, 101}).Draw(rt, label+"next-probes")
+		switch rapid.IntRange(0, 3).Draw(rt, label+"relation") {
+		case 0, 1: // non-alternating: the group of the previous burst's last probe scans again
+			if len(prev) == 0 {
+				break
+			}
+			lastp := prev[len(prev)-1]
+			for i := 0; i < m; i++ {
+				q := genProbe(rt, label, lastp.Src, lastp.Proto, few, rapid.Bool().Draw(rt, label+"w"), 500+i)
+				p.Probes = append(p.Probes, q)
+			}
+		case 2: // alternating: other sources than before where possible
+			used := map[int]bool{}
+			for _, q := range prev {
+				used[q.Src] = true
+			}
+			for i := 0; i < m; i++ {
+				s := rapid.IntRange(0, nsrc-1).Draw(rt, label+"src")
+				for t := 0; t < nsrc && used[s]; t++ {
+					s = (s + 1) % nsrc
+				}
+				p.Probes = append(p.Probes, genProbe(rt, label, s, rapid.SampledFrom(protos).Draw(rt, label+"proto"), few, false, i))
+			}
+		default:
+			for i := 0; i < m; i++ {
+				p.Probes = append(p.Probes, genProbe(rt, label, rapid.IntRange(0, nsrc-1).Draw(rt, label+"src"), rapid.SampledFrom(protos).Draw(rt, label+"proto"), few, wide, 300+i))
+			}
+		}
+		c.Phases = append(c.Phases, p)
+	}
+	return c
 }
 
-const ruleText = "bursts of 1..150 probes (TCP SYN to 17 ports, UDP to 11 undecoded ports, ICMP echo) with repeated ports from 1..4 sources in rapid-drawn interleavings, written to the socketpair of hooked canaries running the real Start() loop and knock detector in a child; batches of independent canaries share one 5 s detector tick; after the reports are complete one more tick is observed. Oracle per (source, destination): the concatenation of portscan.ports over the burst's events is duplicate-free and equals the distinct protocol/port pairs that source probed; no event for a source that sent nothing. non-trivial = a burst with a repeated protocol/port pair or >= 3 (source, protocol) groups live at the tick; plus all operation sequences of length <= 6 over 3 keys on the grouping container UniqueSet (Add/Remove/Count/Each/Each-with-removal) against an ordered-set model"
+const ruleText = "scan cases of 1..3 bursts; a burst has 1..150 probes (TCP SYN with/without options to 17 ports or to distinct high ports, UDP with 0/1/4/18 payload bytes to 11 undecoded ports or distinct high ports, ICMP echo with 0/1/16/32 payload bytes) with repeated ports from 1..4 sources (three behind one router hardware address) in rapid-drawn interleavings, written to the socketpair of hooked canaries running the real Start() loop and knock detector in a child; 48-96 independent canaries share the detector ticks of a batch. A later burst of a case (same source and protocol again, other sources, or anything) is sent after the previous burst's reports are complete and one more tick was observed. In a fifth of the multi-source cases the event channel takes 1.2 s per port-scan event of one source and 101..150 probes of another source arrive while such an event is being delivered. Oracle per burst and (source, destination): the concatenation of portscan.ports over the events of the burst's window is duplicate-free and equals the distinct protocol/port pairs that source probed in the burst; no event for a source that sent nothing in it. non-trivial = a repeated protocol/port pair, >= 3 (source, protocol) groups live at a tick, a (source, protocol) group scanning again in a later burst, or a slow-channel case; plus all operation sequences of length <= 6 over 3 keys on the grouping container UniqueSet against an ordered-set model"
+
+// kind reduces an oracle message to its failure kind.
+func kind(err error) string {
+	m := err.Error()
+	var ks []string
+	for _, k := range []string{"never reported []", "listed more than once []", "not probed []", "which sent nothing", "without a portscan.ports", "for destination", "burst 1 of", "was being delivered"} {
+		if strings.Contains(m, k) {
+			ks = append(ks, k)
+		}
+	}
+	return fmt.Sprintf("%v|tcp=%v|udp=%v|icmp=%v", ks, strings.Contains(m, "tcp/"), strings.Contains(m, "udp/"), strings.Contains(m, "icmp"))
+}
+
+// confirmAndReport re-runs the failed cases on fresh canaries and reports the smallest
+// reproducible one per failure kind.
+func confirmAndReport(t *testing.T, r *vlib.Run, l cl.Local, test string, cases []scanCase, verdicts []error, sigs map[string]bool, max int) error {
+	var failed []scanCase
+	for i, v := range verdicts {
+		if v != nil {
+			failed = append(failed, cases[i])
+		}
+	}
+	if len(failed) == 0 {
+		return nil
+	}
+	again, err := runBatch(l, failed)
+	if err != nil {
+		return err
+	}
+	type cand struct {
+		c   scanCase
+		err error
+	}
+	var confirmed []cand
+	for i, v := range again {
+		if v == nil {
+			r.Flaky(fmt.Sprintf("scan case failed once and passed on fresh canaries: %s", vlib.JSON(failed[i])))
+			continue
+		}
+		confirmed = append(confirmed, cand{failed[i], v})
+	}
+	sort.SliceStable(confirmed, func(i, j int) bool { return confirmed[i].c.probes() < confirmed[j].c.probes() })
+	for _, c := range confirmed {
+		sig := kind(c.err)
+		if sigs[sig] || len(sigs) >= max {
+			continue
+		}
+		sigs[sig] = true
+		r.Violation(t, test, c.c, c.err.Error())
+	}
+	return nil
+}
+
+func replayScan(t *testing.T, r *vlib.Run, l cl.Local, test string) bool {
+	var c scanCase
+	if !vlib.ReplayCase(test, &c) {
+		return false
+	}
+	for attempt := 0; attempt < 2; attempt++ {
+		v, err := runBatch(l, []scanCase{c})
+		if err != nil {
+			t.Fatalf("infra: %v", err)
+		}
+		if v[0] == nil {
+			if attempt > 0 {
+				r.Flaky("replayed scan case failed once, passed on re-run")
+			}
+			return true
+		}
+		if attempt == 1 {
+			r.Violation(t, test, c, v[0].Error())
+		}
+	}
+	return true
+}
 
 func TestBursts(t *testing.T) {
 	r := vlib.Open(prop)
 	l := env(t)
-	var b burst
-	if vlib.ReplayCase("TestBursts", &b) {
-		for attempt := 0; attempt < 2; attempt++ {
-			v, err := runBatch(l, []burst{b})
-			if err != nil {
-				t.Fatalf("infra: %v", err)
-			}
-			if v[0] == nil {
-				if attempt > 0 {
-					r.Flaky("replayed burst failed once, passed on re-run")
-				}
-				return
-			}
-			if attempt == 1 {
-				r.Violation(t, "TestBursts", b, v[0].Error())
-			}
-		}
+	if replayScan(t, r, l, "TestBursts") {
 		return
 	}
 	r.Rule(ruleText)
-	batch := r.Pick(48, 96)
-	reported := 0
+	batch := r.Pick(64, 96)
+	si, _ := r.Shard()
+	checks := r.Pick(2, 16)
+	if si == 0 && !r.Thorough() {
+		checks = 1 // shard 0 also runs the fixed shapes
+	}
 	sigs := map[string]bool{}
 	box := &cl.Infra{}
-	r.Rapid(t, "TestBursts", r.Pick(3, 50), func(rt *rapid.T) {
-		if box.Err() != nil {
-			rapid.Bool().Draw(rt, "skipped-after-infra-error")
+	r.Rapid(t, "TestBursts", checks, func(rt *rapid.T) {
+		if box.Err() != nil || len(sigs) >= 3 {
+			rapid.Bool().Draw(rt, "skipped")
 			return
 		}
-		if reported >= 3 {
-			return
+		cases := make([]scanCase, batch)
+		for i := range cases {
+			cases[i] = genCase(rt, fmt.Sprintf("c%d-", i), r.Pick(2, 3))
+			label, fp := classify(cases[i])
+			c := cases[i]
+			r.Case(label, fp, func() interface{} { return c })
 		}
-		bursts := make([]burst, batch)
-		for i := range bursts {
-			bursts[i] = genBurst(rt, fmt.Sprintf("b%d-", i))
-			label, fp := classify(bursts[i])
-			b := bursts[i]
-			r.Case(label, fp, func() interface{} { return b })
+		verdicts, err := runBatch(l, cases)
+		if err == nil {
+			err = confirmAndReport(t, r, l, "TestBursts", cases, verdicts, sigs, 3)
 		}
-		verdicts, err := runBatch(l, bursts)
 		if err != nil {
 			box.Set(err)
-			return
-		}
-		// confirm the failures on fresh canaries (one more batch), then report the
-		// smallest reproducible one per failure kind
-		var failed []burst
-		for i, v := range verdicts {
-			if v != nil {
-				failed = append(failed, bursts[i])
-			}
-		}
-		if len(failed) == 0 {
-			return
-		}
-		again, err := runBatch(l, failed)
-		if err != nil {
-			box.Set(err)
-			return
-		}
-		type cand struct {
-			b   burst
-			err error
-		}
-		var confirmed []cand
-		for i, v := range again {
-			if v == nil {
-				r.Flaky(fmt.Sprintf("burst failed once and passed on fresh canaries: %s", vlib.JSON(failed[i])))
-				continue
-			}
-			confirmed = append(confirmed, cand{failed[i], v})
-		}
-		sort.SliceStable(confirmed, func(i, j int) bool { return len(confirmed[i].b.Probes) < len(confirmed[j].b.Probes) })
-		for _, c := range confirmed {
-			sig := kind(c.err)
-			if sigs[sig] || reported >= 3 {
-				continue
-			}
-			sigs[sig] = true
-			reported++
-			small := minimise(l, c.b, 3)
-			msg := c.err.Error()
-			if len(small.Probes) < len(c.b.Probes) {
-				if v, err := runBatch(l, []burst{small}); err == nil && v[0] != nil {
-					msg = v[0].Error()
-				} else {
-					small = c.b
-				}
-			}
-			r.Violation(t, "TestBursts", small, msg)
 		}
 	})
 	if e := box.Err(); e != nil {
@@ -490,38 +641,13 @@ func TestBursts(t *testing.T) {
 	}
 }
 
-// kind reduces an oracle message to its failure kind.
-func kind(err error) string {
-	m := err.Error()
-	var ks []string
-	for _, k := range []string{"never reported []", "listed more than once []", "not probed []", "which sent nothing", "without a portscan.ports", "for destination"} {
-		if strings.Contains(m, k) {
-			ks = append(ks, k)
-		}
-	}
-	// the three lists: which of them are non-empty
-	return fmt.Sprintf("%v|tcp=%v|udp=%v|icmp=%v", ks, strings.Contains(m, "tcp/"), strings.Contains(m, "udp/"), strings.Contains(m, "icmp"))
-}
-
-// TestBurstShapes runs a fixed list of burst shapes every time (the classes the
-// statement names), independent of the seed.
+// TestBurstShapes runs a fixed list of scan shapes every time (the classes the statement
+// names, boundary probes, histories over several ticks, bursts during a slow delivery),
+// independent of the seed.
 func TestBurstShapes(t *testing.T) {
 	r := vlib.Open(prop)
 	l := env(t)
-	var b burst
-	if vlib.ReplayCase("TestBurstShapes", &b) {
-		for attempt := 0; attempt < 2; attempt++ {
-			v, err := runBatch(l, []burst{b})
-			if err != nil {
-				t.Fatalf("infra: %v", err)
-			}
-			if v[0] == nil {
-				return
-			}
-			if attempt == 1 {
-				r.Violation(t, "TestBurstShapes", b, v[0].Error())
-			}
-		}
+	if replayScan(t, r, l, "TestBurstShapes") {
 		return
 	}
 	if vlib.Replaying() {
@@ -533,290 +659,109 @@ func TestBurstShapes(t *testing.T) {
 	r.Rule(ruleText)
 	rep := func(src int, proto string, ports ...uint16) []probe {
 		var out []probe
-		for _, p := range ports {
-			out = append(out, probe{Src: src, Proto: proto, Port: p})
+		for i, p := range ports {
+			out = append(out, probe{Src: src, Proto: proto, Port: p, Payload: []int{4, 0, 1}[i%3], NoOpts: i%2 == 1})
 		}
 		return out
 	}
-	join := func(ps ...[]probe) burst {
-		var b burst
+	join := func(ps ...[]probe) []probe {
+		var out []probe
 		for _, p := range ps {
-			b.Probes = append(b.Probes, p...)
+			out = append(out, p...)
 		}
-		return renumber(b)
+		return out
+	}
+	one := func(ps ...[]probe) scanCase { return scanCase{Phases: []phase{{Probes: join(ps...)}}} }
+	seq := func(bursts ...[]probe) scanCase {
+		var c scanCase
+		for _, b := range bursts {
+			c.Phases = append(c.Phases, phase{Probes: b})
+		}
+		return c
 	}
 	many := func(src int, proto string, n int, distinct int) []probe {
 		var out []probe
 		for i := 0; i < n; i++ {
-			out = append(out, probe{Src: src, Proto: proto, Port: uint16(2000 + i%distinct)})
+			out = append(out, probe{Src: src, Proto: proto, Port: uint16(2000 + i%distinct), Payload: i % 2, NoOpts: i%3 == 0})
 		}
 		return out
 	}
 	icmp := func(src, n int) []probe {
 		var out []probe
 		for i := 0; i < n; i++ {
-			out = append(out, probe{Src: src, Proto: "icmp"})
+			out = append(out, probe{Src: src, Proto: "icmp", Payload: []int{0, 16, 1}[i%3]})
 		}
 		return out
 	}
-	shapes := []burst{
-		join(rep(0, "tcp", 80)),
-		join(rep(0, "udp", 7000)),
-		join(icmp(0, 1)),
-		join(rep(0, "tcp", 80, 80, 443, 80)),
-		join(rep(0, "udp", 7000, 7000, 7001)),
-		join(icmp(0, 5)),
-		join(rep(0, "tcp", 80, 443), rep(0, "udp", 7000, 7001)),
-		join(rep(0, "udp", 7000), rep(0, "tcp", 80), rep(0, "udp", 7000), rep(0, "tcp", 80)),
-		join(rep(0, "tcp", 80), icmp(0, 2), rep(0, "udp", 500)),
-		join(rep(0, "tcp", 80), rep(1, "tcp", 80)),
-		join(rep(0, "tcp", 80), rep(1, "tcp", 81), rep(2, "tcp", 82)),
-		join(rep(0, "udp", 1), rep(1, "udp", 2), rep(2, "udp", 3), rep(3, "udp", 4)),
-		join(icmp(0, 1), icmp(1, 1), icmp(2, 1), icmp(3, 1)),
-		join(rep(0, "tcp", 80), rep(1, "udp", 7000), icmp(2, 1)),
-		join(rep(0, "tcp", 80), rep(1, "tcp", 80), rep(0, "tcp", 81), rep(1, "tcp", 81), rep(2, "tcp", 80), rep(3, "tcp", 80)),
-		join(many(0, "tcp", 100, 100)),
-		join(many(0, "tcp", 101, 101)),
-		join(many(0, "tcp", 150, 150)),
-		join(many(0, "udp", 150, 7)),
-		join(many(0, "tcp", 120, 3), many(1, "udp", 30, 30)),
-		join(many(0, "tcp", 50, 50), many(1, "tcp", 50, 50), many(2, "tcp", 50, 50)),
-		join(rep(0, "tcp", 80), rep(0, "udp", 80), icmp(0, 1), rep(1, "tcp", 80), rep(1, "udp", 80), icmp(1, 1), rep(2, "tcp", 80), rep(2, "udp", 80), icmp(2, 1), rep(3, "tcp", 80), rep(3, "udp", 80), icmp(3, 1)),
-	}
-	for _, b := range shapes {
-		b := b
-		label, fp := classify(b)
-		if fp == "" {
-			fp = "" // single-group shapes are trivial by the rule
+	empty := func(src int, ports ...uint16) []probe {
+		var out []probe
+		for _, p := range ports {
+			out = append(out, probe{Src: src, Proto: "udp", Port: p})
 		}
-		r.Case("shape/"+label, fp, func() interface{} { return b })
+		return out
+	}
+	slow := func(a int, first []probe, big []probe) scanCase {
+		return scanCase{Hold: a + 1, HoldMs: 1200, Phases: []phase{{Probes: first, OnHold: big}}}
+	}
+	shapes := []scanCase{
+		one(rep(0, "tcp", 80)),
+		one(rep(0, "udp", 7000)),
+		one(icmp(0, 1)),
+		one(rep(0, "tcp", 80, 80, 443, 80)),
+		one(rep(0, "udp", 7000, 7000, 7001)),
+		one(icmp(0, 5)),
+		// boundary probes: what scanners send
+		one(empty(0, 7001, 7002, 7003)), // nmap -sU: UDP datagrams without payload
+		one(rep(0, "udp", 7001), empty(0, 7002), rep(0, "udp", 7003), empty(0, 7004, 7002)), // mixed
+		one([]probe{{Src: 0, Proto: "udp", Port: 9, Payload: 1}}),
+		one([]probe{{Src: 0, Proto: "icmp"}}),                        // echo request without data
+		one([]probe{{Src: 0, Proto: "tcp", Port: 80, NoOpts: true}}), // bare 20-byte SYN
+		one([]probe{{Src: 0, Proto: "tcp", Port: 80, NoOpts: true}, {Src: 0, Proto: "tcp", Port: 80}}),
+		one(rep(0, "tcp", 80, 443), rep(0, "udp", 7000, 7001)),
+		one(rep(0, "udp", 7000), rep(0, "tcp", 80), rep(0, "udp", 7000), rep(0, "tcp", 80)),
+		one(rep(0, "tcp", 80), icmp(0, 2), rep(0, "udp", 500)),
+		one(rep(0, "tcp", 80), rep(1, "tcp", 80)),
+		one(rep(0, "tcp", 80), rep(1, "tcp", 81), rep(2, "tcp", 82)),
+		one(rep(0, "udp", 1), rep(1, "udp", 2), rep(2, "udp", 3), rep(3, "udp", 4)),
+		one(icmp(0, 1), icmp(1, 1), icmp(2, 1), icmp(3, 1)),
+		one(rep(0, "tcp", 80), rep(1, "udp", 7000), icmp(2, 1)),
+		one(rep(0, "tcp", 80), rep(1, "tcp", 80), rep(0, "tcp", 81), rep(1, "tcp", 81), rep(2, "tcp", 80), rep(3, "tcp", 80)),
+		one(many(0, "tcp", 100, 100)),
+		one(many(0, "tcp", 101, 101)),
+		one(many(0, "tcp", 150, 150)),
+		one(many(0, "udp", 150, 7)),
+		one(many(0, "udp", 150, 150)),
+		one(many(0, "tcp", 120, 3), many(1, "udp", 30, 30)),
+		one(many(0, "tcp", 50, 50), many(1, "tcp", 50, 50), many(2, "tcp", 50, 50)),
+		one(rep(0, "tcp", 80), rep(0, "udp", 80), icmp(0, 1), rep(1, "tcp", 80), rep(1, "udp", 80), icmp(1, 1), rep(2, "tcp", 80), rep(2, "udp", 80), icmp(2, 1), rep(3, "tcp", 80), rep(3, "udp", 80), icmp(3, 1)),
+		// histories over several detector ticks
+		seq(rep(0, "tcp", 21, 23, 25, 21), rep(0, "tcp", 8080, 8081)),            // the same source scans again
+		seq(rep(0, "tcp", 21, 23), rep(0, "tcp", 21, 23), rep(0, "tcp", 21, 23)), // and again, the same ports
+		seq(rep(0, "udp", 7000), rep(0, "udp", 7001), rep(0, "udp", 7002)),
+		seq(icmp(0, 2), icmp(0, 1), icmp(0, 3)),
+		seq(rep(0, "tcp", 80), rep(1, "tcp", 80), rep(0, "tcp", 81)),   // alternating sources
+		seq(rep(0, "tcp", 80), rep(0, "udp", 7000), rep(0, "tcp", 81)), // alternating protocols
+		seq(join(rep(0, "tcp", 80), rep(1, "tcp", 80)), join(rep(1, "tcp", 81)), join(rep(1, "tcp", 82), rep(0, "tcp", 83))),
+		seq(many(0, "tcp", 101, 101), many(0, "tcp", 101, 50)),
+		seq(rep(2, "udp", 500), nil, rep(2, "udp", 500)), // a silent period in between
+		seq(join(rep(0, "tcp", 80), rep(2, "tcp", 80), rep(3, "tcp", 80)), join(rep(3, "tcp", 81)), join(rep(3, "tcp", 82), rep(2, "tcp", 82))),
+		// bursts larger than the knock queue while another source's report is being delivered
+		slow(0, rep(0, "udp", 7000), many(1, "udp", 150, 150)),
+		slow(0, rep(0, "tcp", 80), many(1, "tcp", 150, 150)),
+		slow(1, rep(1, "udp", 7000), join(many(0, "udp", 60, 60), many(0, "tcp", 60, 60), icmp(0, 5))),
+		slow(2, icmp(2, 1), join(many(0, "udp", 120, 120), many(3, "tcp", 30, 30))),
+		slow(0, rep(0, "udp", 7000), many(2, "udp", 101, 101)), // same router hardware address as the slow source
+	}
+	for _, c := range shapes {
+		c := c
+		label, fp := classify(c)
+		r.Case("shape/"+label, fp, func() interface{} { return c })
 	}
 	verdicts, err := runBatch(l, shapes)
+	if err == nil {
+		err = confirmAndReport(t, r, l, "TestBurstShapes", shapes, verdicts, map[string]bool{}, 4)
+	}
 	if err != nil {
 		t.Fatalf("infra: %v", err)
 	}
-	var failed []burst
-	for i, v := range verdicts {
-		if v != nil {
-			failed = append(failed, shapes[i])
-		}
-	}
-	if len(failed) == 0 {
-		return
-	}
-	again, err := runBatch(l, failed)
-	if err != nil {
-		t.Fatalf("infra: %v", err)
-	}
-	sigs := map[string]bool{}
-	for i, v := range again {
-		if v == nil {
-			r.Flaky(fmt.Sprintf("shape failed once and passed on fresh canaries: %s", vlib.JSON(failed[i])))
-			continue
-		}
-		if sig := kind(v); !sigs[sig] && len(sigs) < 4 {
-			sigs[sig] = true
-			r.Violation(t, "TestBurstShapes", failed[i], v.Error())
-		}
-	}
-}
-
-// ---------------------------------------------------------------------------------
-// UniqueSet against an ordered-set model
-
-type item struct{ key int }
-
-type setOp struct {
-	Op  string `json:"op"` // add | remove | count | each | each-remove-all | each-remove
-	Key int    `json:"key,omitempty"`
-}
-
-type setCase struct {
-	Ops []setOp `json:"ops"`
-}
-
-var allOps = func() []setOp {
-	var out []setOp
-	for k := 0; k < 3; k++ {
-		out = append(out, setOp{"add", k})
-	}
-	for k := 0; k < 3; k++ {
-		out = append(out, setOp{"remove", k})
-	}
-	out = append(out, setOp{"count", 0}, setOp{"each", 0}, setOp{"each-remove-all", 0})
-	for k := 0; k < 3; k++ {
-		out = append(out, setOp{"each-remove", k})
-	}
-	return out
-}()
-
-// checkSet runs the sequence on a UniqueSet and on the model: a list of keys in insertion
-// order.
-func checkSet(c setCase) (err error) {
-	defer func() {
-		if r := recover(); r != nil {
-			err = fmt.Errorf("panic: %v", r)
-		}
-	}()
-	us := canary.NewUniqueSet(func(a, b interface{}) bool { return a.(*item).key == b.(*item).key })
-	var model []int          // keys in insertion order
-	canon := map[int]*item{} // the stored item per key
-	pos := func(k int) int {
-		for i, m := range model {
-			if m == k {
-				return i
-			}
-		}
-		return -1
-	}
-	for n, op := range c.Ops {
-		at := fmt.Sprintf("op %d %s(%d)", n, op.Op, op.Key)
-		switch op.Op {
-		case "add":
-			it := &item{key: op.Key}
-			got := us.Add(it)
-			if pos(op.Key) >= 0 {
-				if got != interface{}(canon[op.Key]) {
-					return fmt.Errorf("%s: key already in the set, Add must return the stored element", at)
-				}
-			} else {
-				if got != interface{}(it) {
-					return fmt.Errorf("%s: new key, Add must return the added element", at)
-				}
-				model = append(model, op.Key)
-				canon[op.Key] = it
-			}
-		case "remove":
-			if it, ok := canon[op.Key]; ok {
-				us.Remove(it)
-				model = append(model[:pos(op.Key)], model[pos(op.Key)+1:]...)
-				delete(canon, op.Key)
-			} else {
-				us.Remove(&item{key: op.Key}) // not an element: no effect
-			}
-		case "count":
-		case "each", "each-remove-all", "each-remove":
-			var visited []int
-			var idx []int
-			us.Each(func(i int, v interface{}) {
-				if v == nil {
-					visited = append(visited, -1)
-					idx = append(idx, i)
-					return
-				}
-				it := v.(*item)
-				visited = append(visited, it.key)
-				idx = append(idx, i)
-				if op.Op == "each-remove-all" || (op.Op == "each-remove" && it.key == op.Key) {
-					// the detector removes the element it is visiting
-					us.Remove(it)
-				}
-			})
-			if fmt.Sprint(visited) != fmt.Sprint(model) {
-				return fmt.Errorf("%s: Each visited keys %v, the set holds %v in insertion order (each element must be visited exactly once)", at, visited, model)
-			}
-			if op.Op == "each" {
-				for i, x := range idx {
-					if x != i {
-						return fmt.Errorf("%s: Each passed indices %v, want 0..%d", at, idx, len(model)-1)
-					}
-				}
-			}
-			switch op.Op {
-			case "each-remove-all":
-				model = nil
-				canon = map[int]*item{}
-			case "each-remove":
-				if p := pos(op.Key); p >= 0 {
-					model = append(model[:p], model[p+1:]...)
-					delete(canon, op.Key)
-				}
-			}
-		}
-		if us.Count() != len(model) {
-			return fmt.Errorf("%s: Count() = %d, the set holds %d elements %v", at, us.Count(), len(model), model)
-		}
-	}
-	// final contents
-	var final []int
-	us.Each(func(i int, v interface{}) {
-		if v == nil {
-			final = append(final, -1)
-		} else {
-			final = append(final, v.(*item).key)
-		}
-	})
-	if fmt.Sprint(final) != fmt.Sprint(model) {
-		return fmt.Errorf("after the sequence the set holds %v, the model %v", final, model)
-	}
-	return nil
-}
-
-func TestUniqueSet(t *testing.T) {
-	r := vlib.Open(prop)
-	var c setCase
-	if vlib.ReplayCase("TestUniqueSet", &c) {
-		if err := checkSet(c); err != nil {
-			r.Violation(t, "TestUniqueSet", c, err.Error())
-		}
-		return
-	}
-	if vlib.Replaying() {
-		return
-	}
-	r.Rule(ruleText)
-	si, sn := r.Shard()
-	var n, nontrivial int64
-	var firstFail *setCase
-	var firstMsg string
-	var failures int64
-	seq := make([]setOp, 0, 6)
-	var idx int64
-	var rec func(depth int)
-	rec = func(depth int) {
-		if depth > 0 {
-			idx++
-			if idx%int64(sn) == int64(si) {
-				n++
-				adds := 0
-				iter := false
-				for _, o := range seq {
-					if o.Op == "add" {
-						adds++
-					}
-					if strings.HasPrefix(o.Op, "each") {
-						iter = true
-					}
-				}
-				if adds >= 2 && iter {
-					nontrivial++
-				}
-				c := setCase{Ops: append([]setOp(nil), seq...)}
-				if err := checkSet(c); err != nil {
-					failures++
-					// shortest first: the enumeration is depth-first, so compare lengths
-					if firstFail == nil || len(c.Ops) < len(firstFail.Ops) {
-						firstFail, firstMsg = &c, err.Error()
-					}
-				}
-			}
-		}
-		if depth == 6 {
-			return
-		}
-		for _, o := range allOps {
-			seq = append(seq, o)
-			rec(depth + 1)
-			seq = seq[:len(seq)-1]
-		}
-	}
-	rec(0)
-	r.Bulk("uniqueset/sequences<=6", n, nontrivial)
-	r.Sample("uniqueset/sequences<=6", setCase{Ops: []setOp{{"add", 0}, {"add", 1}, {"add", 2}, {"each-remove-all", 0}, {"count", 0}}})
-	if firstFail != nil {
-		r.Note("UniqueSet: %d of %d sequences disagree with the ordered-set model", failures, n)
-		r.Violation(t, "TestUniqueSet", *firstFail, firstMsg)
-		return
-	}
-	r.Exhaustive("all operation sequences of length <= 6 over 3 keys on UniqueSet (12 operations: Add/Remove per key, Count, Each, Each removing every visited element, Each removing one key when visited)")
 }
